@@ -10,6 +10,10 @@ package cl
 // return-from / go marker an evaluation hands back: nothing more is evaluated
 // and the marker is the function's result.
 //@ every-function cl forward-exits
+// C01, package-wide: the forms of a function's own argument list are evaluated
+// left to right and none of them twice (iteration constructs fail this by
+// design; they are reported undecided, never claimed).
+//@ every-function cl eval-once
 
 // ---------------------------------------------------------------------------
 // C05, family I: in these functions every 64-bit integer value that is boxed
